@@ -276,13 +276,36 @@ def advance (st : GState) (isB : Bool) (size : Option Nat) (et : Ty) : GState :=
     | _, _ => st
   if isStructTy et && !isB then { st1 with cur := none } else st1
 
+/-- `if prev_was_bits and not field.bits: yield "bit_reader.reset()"` -/
+def preOf (st : GState) (isB : Bool) : Plan := if st.prevBits ∧ ¬ isB then [.bitsReset] else []
+
+/-- `prev_was_bits = False; bits_remaining = 0` after that statement -/
+def afterPre (st : GState) (isB : Bool) : GState :=
+  if st.prevBits ∧ ¬ isB then { st with prevBits := false, bitsRem := 0 } else st
+
+/-- the bookkeeping of the bit-field branch: `prev_was_bits`, `prev_bits_type`, `bits_remaining`, `bits_rollover` -/
+def bitsState (st : GState) (ft : Ty) (sz nbits : Nat) : GState :=
+  let st : GState := { st with prevBits := true }
+  let st : GState :=
+    if st.bitsRem = 0 ∨ st.prevBitsTy ≠ ft.bitBase then
+      { st with prevBitsTy := ft.bitBase, bitsRem := ((sz * 8 : Nat) : Int), rollover := true }
+    else st
+  { st with bitsRem := st.bitsRem - ((nbits : Nat) : Int) }
+
+/-- the last branch: `flush()` for a dynamically placed member of an aligned structure, then
+    `if not current_block: current_block_offset = current_offset; current_block.append(field)` -/
+def blockState (al : Bool) (st : GState) (f : CField) : GState :=
+  let st : GState := if al ∧ f.off.isNone then { st with block := [] } else st
+  let st : GState := if st.block.isEmpty then { st with blockOff := st.cur } else st
+  { st with block := st.block ++ [f] }
+
 /-- `_generate_fields` -/
 def genFields (cfg : Cfg) (al : Bool) : Fields → List (Option Nat) → GState → Except Unit Plan
   | .nil, _, st =>
     match flush cfg al st with
     | .error e => .error e
     | .ok fl => .ok (fl ++ (if al then [.alignCls] else []))
-  | .cons name _ ty bits rest, offs, st =>
+  | .cons name _ ty bits rest, offs, st0 =>
     let f : CField := { name := name, ty := ty, off := hdOff offs }
     let ft := fieldType ty
     if unsupported ft then .error () else
@@ -290,44 +313,36 @@ def genFields (cfg : Cfg) (al : Bool) : Fields → List (Option Nat) → GState 
     if isPtrTy et ∧ ¬ isPacked cfg.ptr then .error () else
     let isB := isBitsField bits
     -- `if prev_was_bits and not field.bits`
-    let pre : Plan := if st.prevBits ∧ ¬ isB then [.bitsReset] else []
-    let st : GState := if st.prevBits ∧ ¬ isB then { st with prevBits := false, bitsRem := 0 } else st
+    let pre : Plan := preOf st0 isB
+    let st : GState := afterPre st0 isB
     let size := ft.size cfg
     if isStructTy ft ∨ isSubArray ft size then
       match flush cfg al st with
       | .error e => .error e
       | .ok fl =>
-        let (at_, cur') := alignToField cfg al f st.cur
-        match genFields cfg al rest (offs.drop 1) (advance { st with block := [], cur := cur' } isB size et) with
+        match genFields cfg al rest (offs.drop 1)
+            (advance { st with block := [], cur := (alignToField cfg al f st.cur).2 } isB size et) with
         | .error e => .error e
-        | .ok p => .ok (pre ++ fl ++ at_ ++ [.sub name] ++ p)
+        | .ok p => .ok (pre ++ fl ++ (alignToField cfg al f st.cur).1 ++ [.sub name] ++ p)
     else if isB then
       match size with
       | none => .error ()        -- "Unsupported type for bit field"
       | some sz =>
-        let st : GState := { st with prevBits := true }
-        let st : GState :=
-          if st.bitsRem = 0 ∨ st.prevBitsTy ≠ ft.bitBase then
-            { st with prevBitsTy := ft.bitBase, bitsRem := ((sz * 8 : Nat) : Int), rollover := true }
-          else st
-        let st : GState := { st with bitsRem := st.bitsRem - ((bits.getD 0 : Nat) : Int) }
+        let st : GState := bitsState st ft sz (bits.getD 0)
         match flush cfg al st with
         | .error e => .error e
         | .ok fl =>
-          let (at_, cur') := alignToField cfg al f st.cur
-          match genFields cfg al rest (offs.drop 1) (advance { st with block := [], cur := cur' } isB size et) with
+          match genFields cfg al rest (offs.drop 1)
+              (advance { st with block := [], cur := (alignToField cfg al f st.cur).2 } isB size et) with
           | .error e => .error e
-          | .ok p => .ok (pre ++ fl ++ at_ ++ [.bits name (bits.getD 0) (bitsViaOf ty)] ++ p)
+          | .ok p => .ok (pre ++ fl ++ (alignToField cfg al f st.cur).1 ++ [.bits name (bits.getD 0) (bitsViaOf ty)] ++ p)
     else
       -- `if self.align and field.offset is None: yield from flush()`
       let fl : Except Unit Plan := if al ∧ f.off.isNone then flush cfg al st else .ok []
       match fl with
       | .error e => .error e
       | .ok fl =>
-        let st : GState := if al ∧ f.off.isNone then { st with block := [] } else st
-        let st : GState := if st.block.isEmpty then { st with blockOff := st.cur } else st
-        let st : GState := { st with block := st.block ++ [f] }
-        match genFields cfg al rest (offs.drop 1) (advance st isB size et) with
+        match genFields cfg al rest (offs.drop 1) (advance (blockState al st f) isB size et) with
         | .error e => .error e
         | .ok p => .ok (pre ++ fl ++ p)
 
